@@ -40,10 +40,12 @@ type apiStats struct {
 }
 
 // want is the ledger row of one accounting subject (a user, or the anonymous remainder).
+// Byte counts are intervals: exact for orderly sessions, [received by the far harness side,
+// written by the near harness side] for sessions ended by a reset or hidden failures.
 type want struct {
-	sessions   uint64
-	upLo, upHi uint64
-	down       uint64
+	sessions       uint64
+	upLo, upHi     uint64
+	downLo, downHi uint64
 }
 
 func (w *want) add(r connResult) {
@@ -53,19 +55,23 @@ func (w *want) add(r connResult) {
 	w.sessions++
 	w.upLo += uint64(r.up)
 	w.upHi += uint64(r.upMax)
-	w.down += uint64(r.down)
+	w.downLo += uint64(r.down)
+	w.downHi += uint64(r.downMax)
 }
 
 func (w want) matches(t apiTraffic) bool {
-	return t.TCPSessions == w.sessions && t.DownlinkBytes == w.down && t.UplinkBytes >= w.upLo && t.UplinkBytes <= w.upHi &&
+	return t.TCPSessions == w.sessions && t.DownlinkBytes >= w.downLo && t.DownlinkBytes <= w.downHi && t.UplinkBytes >= w.upLo && t.UplinkBytes <= w.upHi &&
 		t.UDPSessions == 0 && t.DownlinkPackets == 0 && t.UplinkPackets == 0
 }
 
 func (w want) String() string {
-	if w.upLo == w.upHi {
-		return fmt.Sprintf("{tcpSessions:%d uplinkBytes:%d downlinkBytes:%d}", w.sessions, w.upLo, w.down)
+	iv := func(lo, hi uint64) string {
+		if lo == hi {
+			return fmt.Sprint(lo)
+		}
+		return fmt.Sprintf("%d..%d", lo, hi)
 	}
-	return fmt.Sprintf("{tcpSessions:%d uplinkBytes:%d..%d downlinkBytes:%d}", w.sessions, w.upLo, w.upHi, w.down)
+	return fmt.Sprintf("{tcpSessions:%d uplinkBytes:%s downlinkBytes:%s}", w.sessions, iv(w.upLo, w.upHi), iv(w.downLo, w.downHi))
 }
 
 func sub(a, b apiTraffic) apiTraffic {
@@ -76,7 +82,12 @@ func sub(a, b apiTraffic) apiTraffic {
 // checkServerStats polls GET /servers/<name>/stats until the session count has reached the
 // ledger's (sessions are recorded when the relay's copy loops have returned, shortly after the
 // harness saw both EOFs) and then compares every subject exactly.
-func checkServerStats(in *tcpsvc.Instance, name string, users map[string]want, anon want) (string, bool) {
+//
+// allEnded reports that the instance has logged the end of every expected copy phase. The relay
+// hands the session to the collector before it logs, so once that is true a missing session is
+// final and reported at once instead of after the liveness bound (if the log texts ever change
+// this degrades to the bounded poll).
+func checkServerStats(in *tcpsvc.Instance, name string, users map[string]want, anon want, allEnded func() bool) (string, bool) {
 	var total uint64 = anon.sessions
 	for _, w := range users {
 		total += w.sessions
@@ -84,6 +95,7 @@ func checkServerStats(in *tcpsvc.Instance, name string, users map[string]want, a
 	deadline := time.Now().Add(liveBound)
 	var last apiStats
 	var body []byte
+	ended := false
 	for {
 		code, b, err := in.APIGet("/servers/" + name + "/stats")
 		if err != nil || code != 200 {
@@ -100,6 +112,13 @@ func checkServerStats(in *tcpsvc.Instance, name string, users map[string]want, a
 		}
 		if last.TCPSessions >= total {
 			break
+		}
+		if ended {
+			return fmt.Sprintf("SIG=C13/stats-session-missing server %s: %d of %d sessions recorded although the relay has logged the end of every copy phase; ledger users %v anonymous %v; body %s", name, last.TCPSessions, total, users, anon, b), false
+		}
+		if allEnded() {
+			ended = true // one more read: this one is final
+			continue
 		}
 		if time.Now().After(deadline) {
 			return fmt.Sprintf("SIG=C13/stats-session-missing server %s: %d of %d sessions recorded %s after the last connection ended; body %s", name, last.TCPSessions, total, liveBound, b), true
@@ -133,8 +152,21 @@ func checkServerStats(in *tcpsvc.Instance, name string, users map[string]want, a
 
 func hasUsers(proto string) bool { return proto == "socks5" || proto == "http" || proto == "ss2022" }
 
+func copiesEnded(in *tcpsvc.Instance, total int) func() bool {
+	return func() bool {
+		return in.CountLogs("Bidirectional copy completed")+in.CountLogs("Bidirectional copy failed") >= total
+	}
+}
+
 func checkStats(c casePlan, front, back *tcpsvc.Instance, conns []connResult) (string, bool) {
 	names := frontNames(c)
+	frontTotal := 0
+	for _, r := range conns {
+		if r.session {
+			frontTotal++
+		}
+	}
+	frontEnded := copiesEnded(front, frontTotal)
 	for si, name := range names {
 		users := map[string]want{}
 		var anon want
@@ -150,7 +182,7 @@ func checkStats(c casePlan, front, back *tcpsvc.Instance, conns []connResult) (s
 				anon.add(r)
 			}
 		}
-		if v, live := checkServerStats(front, name, users, anon); v != "" {
+		if v, live := checkServerStats(front, name, users, anon, frontEnded); v != "" {
 			return v + "\n  (front instance; uplink must include the initial payload exactly once)", live
 		}
 	}
@@ -169,7 +201,7 @@ func checkStats(c casePlan, front, back *tcpsvc.Instance, conns []connResult) (s
 		} else {
 			anon = w
 		}
-		if v, live := checkServerStats(back, "back", users, anon); v != "" {
+		if v, live := checkServerStats(back, "back", users, anon, copiesEnded(back, int(w.sessions))); v != "" {
 			return v + "\n  (back instance)", live
 		}
 	}
@@ -186,13 +218,16 @@ var recRelay = ev.New("C13", "relay",
 		"chunk sizes around the wait buffer (1, B-1, B, B+1, 2B, 2B+1) plus random and 64k-200k; target speaks first or answers; who half-closes first (client, target, both) and how many bytes the other side still sends after seeing EOF. "+
 		"The harness speaks the client protocols with the repo's client packages. Oracle: offset-derived content ledger in both directions, EOF order, failure reply from a protocol table "+
 		"unless the documented wait rule (or a reply-less upstream) forced success, GET /servers/{s}/stats of both instances = ledger. "+
-		"Evaluation = one connection. Non-trivial: first payload within +-T/2 of the wait deadline on a waiting relay, or one side half-closes first and the other still delivers >0 bytes; distinct key = configuration class + connection class").
+		"A fourth close mode ends the session with a reset (SO_LINGER 0) by client or target after bytes were relayed both ways, either after both sides have read everything (statistics exact) "+
+		"or as soon as the client has seen a downlink byte (statistics within [received by the far side, written by the near side]); exactly one session for the right user either way. "+
+		"Evaluation = one connection. Non-trivial: first payload within +-T/2 of the wait deadline on a waiting relay, or one side half-closes first and the other still delivers >0 bytes, or the session is ended by a reset with bytes relayed; distinct key = configuration class + connection class").
 	Require("first-payload-near-deadline", "half-close-then-opposite-flows", "failure-reply", "forced-success-reply", "wait-applies",
 		"path:dialled-before-first-bytes", "path:dialled-after-first-bytes", "client-never-sends", "first-exceeds-wait-buffer",
 		"server:socks5", "server:http", "server:none", "server:direct", "server:ss2022",
 		"client:direct", "client:socks5", "client:http", "client:none", "client:ss2022",
 		"target:ok-ip", "target:ok-domain", "target:refused", "target:nxdomain", "target:router-reject-domain",
-		"routed:chain", "routed:direct-beside-chain")
+		"routed:chain", "routed:direct-beside-chain",
+		"session-ended-by-reset-with-bytes-relayed", "reset-by:client", "reset-by:target", "reset:after-everything-was-read", "reset:bytes-possibly-in-flight")
 
 func workDir(t *testing.T) string {
 	if d := os.Getenv("VERIF_WORK"); d != "" {
